@@ -20,6 +20,7 @@ type Canon struct {
 	ids       map[uintptr]int
 	HiddenCap bool // also print slice elements between len and cap
 	MaxDepth  int
+	NoTypes   bool // omit struct/slice type names (values of structurally equal but differently tagged types compare equal)
 }
 
 func CanonString(v any) string {
@@ -113,7 +114,11 @@ func (c *Canon) Val(v reflect.Value, depth int) {
 		fmt.Fprintf(&c.sb, "&#%d:", id)
 		c.Val(v.Elem(), depth+1)
 	case reflect.Struct:
-		c.sb.WriteString(v.Type().String() + "{")
+		if c.NoTypes {
+			c.sb.WriteString("{")
+		} else {
+			c.sb.WriteString(v.Type().String() + "{")
+		}
 		for i := 0; i < v.NumField(); i++ {
 			if i > 0 {
 				c.sb.WriteString(",")
@@ -128,7 +133,11 @@ func (c *Canon) Val(v reflect.Value, depth int) {
 			return
 		}
 		n := v.Len()
-		c.sb.WriteString(v.Type().String() + "[")
+		if c.NoTypes {
+			c.sb.WriteString("[")
+		} else {
+			c.sb.WriteString(v.Type().String() + "[")
+		}
 		lim := n
 		if c.HiddenCap {
 			lim = v.Cap()
